@@ -558,7 +558,8 @@ theorem frame_hyps (RT : RuntimeSizeFact) (a : AbstractModel) (h : WF a = true)
     m.fileHeader = { fileHeader a with
       vertexOffsets := m.fileHeader.vertexOffsets, indexOffsets := m.fileHeader.indexOffsets,
       vertexBufferSize := m.fileHeader.vertexBufferSize,
-      indexBufferSize := m.fileHeader.indexBufferSize } ∧
+      indexBufferSize := m.fileHeader.indexBufferSize,
+      lodCount := m.fileHeader.lodCount } ∧
     (∀ i, i < a.lodCount.toNat →
       m.fileHeader.vertexOffsets.get? i = (fileHeader a).vertexOffsets.get? i ∧
       m.fileHeader.indexOffsets.get? i = (fileHeader a).indexOffsets.get? i ∧
@@ -708,15 +709,16 @@ theorem frame_hyps (RT : RuntimeSizeFact) (a : AbstractModel) (h : WF a = true)
   have hfh : m.fileHeader = { fileHeader a with
       vertexOffsets := m.fileHeader.vertexOffsets, indexOffsets := m.fileHeader.indexOffsets,
       vertexBufferSize := m.fileHeader.vertexBufferSize,
-      indexBufferSize := m.fileHeader.indexBufferSize } := by
+      indexBufferSize := m.fileHeader.indexBufferSize,
+      lodCount := m.fileHeader.lodCount } := by
     have hsf := hrep.fh
     generalize fileHeader a = F at hsf hstack hruntime ⊢
     generalize m.fileHeader = G at hsf hstack hruntime ⊢
     cases F; cases G
     simp only [stripFH, FileHeader.mk.injEq] at hsf
     simp only at hstack hruntime
-    obtain ⟨q1, -, -, q2, q3, -, -, -, -, q4, q5, q6⟩ := hsf
-    subst q1 q2 q3 q4 q5 q6 hstack hruntime
+    obtain ⟨q1, -, -, q2, q3, -, -, -, -, -, q5, q6⟩ := hsf
+    subst q1 q2 q3 q5 q6 hstack hruntime
     rfl
   -- (O4) the array slots of the LODs in use
   have hnparts : m.lods.length = a.lodCount.toNat := by
